@@ -18,6 +18,9 @@ mod rulelib;
 pub mod runlib;
 pub mod verifylib;
 
+#[cfg(in_toto_verif)]
+pub mod verif;
+
 mod format_hex;
 
 pub use crate::error::*;
